@@ -96,6 +96,61 @@ def report(pid, rep, cor, only=None):
                           {"kind": "pair", "case": c, "text": docs[j][0]})
 
 
+def module_body(text):
+    """the text between `/begin MODULE name "long"` and the last `/end MODULE` (None if the document has no MODULE)"""
+    lines = text.split("\n")
+    a = next((i for i, l in enumerate(lines) if l.strip().startswith("/begin MODULE")), None)
+    b = next((i for i in range(len(lines) - 1, -1, -1) if lines[i].strip() == "/end MODULE"), None)
+    if a is None or b is None or b <= a:
+        return None
+    return "\n".join(lines[a + 1:b]) + "\n"
+
+
+def fragment_family(rep, binp, cor):
+    seen, frags, fmeta = set(), [], []
+    for (t, s), c in zip(cor["docs"], cor["meta"]):
+        if c["k"] != "pos" or not s:
+            continue
+        body = module_body(t)
+        if body is None or not body.strip() or body in seen:
+            continue
+        seen.add(body)
+        frags.append(body)
+        fmeta.append(c)
+    if len(frags) < 100:
+        vlib.tool_error(f"vacuity: only {len(frags)} fragments")
+    import os
+    inp = os.path.join(vlib.scratch(), "c04_frag.ndjson")
+    outp = os.path.join(vlib.scratch(), "c04_frag.out")
+    vlib.write_ndjson(inp, [{"id": i, "text": t, "fragment": True, "want": ["tokens", "tree"]} for i, t in enumerate(frags)])
+    results, _ = vlib.run_cases_resilient(binp, "load-op", inp, outp, len(frags))
+    events = []
+    for r in results:
+        if r.get("hang") or "panic" in r or "tokens" not in r:
+            events.append(None)
+            continue
+        ev = pc.load_event(r, False, None)
+        if ev is not None:
+            ev["frag"] = 1
+        events.append(ev)
+    rejected, trees, _, nj = pc.judge_events(events, PID + "frag")
+    for i, r in enumerate(results):
+        if r.get("hang") or "panic" in r:
+            rep.violation("fragment:panic", f"load_fragment panicked or hung: {r.get('panic')}", {"kind": "fragment", "case": fmeta[i], "text": frags[i]})
+    for k, names in sorted(rejected.items()):
+        r = results[k]
+        rep.violation(f"fragment:{'+'.join(names)}:{fmeta[k].get('e')}", f"load_fragment of the MODULE body of case {fmeta[k]} disagrees with RunFragment on {names}; observed {json.dumps(r.get('e') or 'ok')[:200]}",
+                      {"kind": "fragment", "case": fmeta[k], "text": frags[k]})
+    for k, t in trees.items():
+        if k in rejected:
+            continue
+        out = []
+        a2ldoc.compare_node(t, results[k]["tree"], "MODULE", out)
+        if out:
+            rep.violation(f"fragment:Values:{fmeta[k].get('e')}", f"the module returned by load_fragment does not hold what the text says: {out[:3]}", {"kind": "fragment", "case": fmeta[k], "text": frags[k]})
+    return nj
+
+
 def run(tier, selftest):
     t0 = time.time()
     rep = vlib.Reporter(PID)
@@ -112,6 +167,8 @@ def run(tier, selftest):
             c = cor["meta"][k]
             rep.violation(f"parser:Values:{c['e'] if 'e' in c else c['k']}", f"the model does not hold what the document says: {d[:3]}",
                           {"kind": "doc", "case": c, "text": cor["docs"][k][0], "strict": cor["docs"][k][1]})
+    # the second entry point: load_fragment on the body of the MODULE of every positive document (RunFragment)
+    nfrag = fragment_family(rep, binp, cor)
     binding = None
     if selftest or tier == "thorough":
         ev = json.loads(json.dumps(next(e for e in cor["events"] if e and e["out"]["ok"] and e["out"]["diags"])))
@@ -139,6 +196,7 @@ def run(tier, selftest):
         "trees_compared": len(cor["trees"]),
         "tree_value_differences": ndiff,
         "events_rejected": len(cor["rejected"]),
+        "fragments_judged": nfrag,
     }
     if binding:
         cov["binding_mutations_rejected"] = binding
@@ -156,6 +214,25 @@ def replay(path):
     rep = vlib.Reporter(PID)
     binp = vlib.build_harness()
     case = r["case"]
+    if case["kind"] == "fragment":
+        import os
+        inp = os.path.join(vlib.scratch(), "c04_frag_replay.ndjson")
+        outp = os.path.join(vlib.scratch(), "c04_frag_replay.out")
+        vlib.write_ndjson(inp, [{"id": 0, "text": case["text"], "fragment": True, "want": ["tokens", "tree"]}])
+        results, _ = vlib.run_cases_resilient(binp, "load-op", inp, outp, 1)
+        ev = pc.load_event(results[0], False, None) if "panic" not in results[0] else None
+        if ev is None:
+            rep.violation("fragment:panic", str(results[0].get("panic")), case)
+        else:
+            ev["frag"] = 1
+            rj, trees, _, _ = pc.judge_events([ev], "replay")
+            out = []
+            if 0 in trees and 0 not in rj:
+                a2ldoc.compare_node(trees[0], results[0]["tree"], "MODULE", out)
+            if rj or out:
+                rep.violation("fragment:" + "+".join(rj.get(0, ["Values"])), "load_fragment disagrees with RunFragment", case)
+        print("replay:", "violation reproduced" if rep.new else "no violation")
+        return rep.exit_code()
     docs = [(case["text"], True), (case["text"], False)] if case["kind"] == "pair" else [(case["text"], case["strict"])]
     results = pc.run_loads(binp, docs, "replay")
     events = [pc.load_event(x, s, case.get("case")) for x, (t, s) in zip(results, docs)]
